@@ -52,6 +52,19 @@ PROJECTS = {
         "entry": ["all"],
         "expect": lambda s: {"a.out": "a:%s\n" % s.strip(), "b.out": "b:%s\n" % s.strip(), "all": "a:%s\nb:%s\n" % (s.strip(), s.strip())},
     },
+    # two independent targets over one source, asked for as "b a"; the recovery command names them the
+    # other way round, so that a target the killed run had not reached is built and RECORDED before the
+    # target the kill interrupted is looked at again (seeded change c10-f: one job's recording swept the
+    # dependency rows another, interrupted job had only flagged)
+    "two_tops": {
+        "files": {"src": "v1\n",
+                  "a.do": 'redo-ifchange src\necho "a:$(cat src)"\n',
+                  "b.do": 'redo-ifchange src\necho "b:$(cat src)" > $3\n'},
+        "edit": ("src", "v2\n"),
+        "entry": ["b", "a"],
+        "recover_entry": ["a", "b"],
+        "expect": lambda s: {"a": "a:%s\n" % s.strip(), "b": "b:%s\n" % s.strip()},
+    },
 }
 
 
